@@ -1861,8 +1861,20 @@ uint32_t bufr_cvt_fval_to_i32(int code, BufrValueEncoding *be, float fval)
  */
    maxval = (1ULL << be->nbits) - 1;
    ival_pow = val_pow = pow(10.0,(double)be->scale);
-   fmin = be->reference / val_pow;
-   fmax = ((int64_t)(maxval-1) + be->reference) / val_pow;
+   if (be->scale < 0)
+      {
+/*
+ * 10^scale is not representable for a negative scale: use the exact 10^-scale
+ */
+      double inv_pow = pow(10.0,(double)(-be->scale));
+      fmin = be->reference * inv_pow;
+      fmax = ((int64_t)(maxval-1) + be->reference) * inv_pow;
+      }
+   else
+      {
+      fmin = be->reference / val_pow;
+      fmax = ((int64_t)(maxval-1) + be->reference) / val_pow;
+      }
 
    if (fval > fmax)
       {
@@ -1913,7 +1925,7 @@ uint32_t bufr_cvt_fval_to_i32(int code, BufrValueEncoding *be, float fval)
       }
    else
       {
-      int sval = round(fval * val_pow);
+      int sval = round(fval / pow(10.0,(double)(-be->scale)));
       ival = sval - be->reference;
       if (ival >= maxval) overflow = 1;
       }
@@ -2014,16 +2026,19 @@ float bufr_cvt_i32_to_fval(BufrValueEncoding *be, uint32_t ival)
    missing = bufr_missing_ivalue( be->nbits );
    if (ival == missing) return bufr_get_max_float();
 
-   val_pow = pow(10.0,(double)be->scale);
+/*
+ * 10^scale is not representable for a negative scale: multiply by the exact 10^-scale instead of dividing by it
+ */
+   val_pow = pow(10.0,(double)(be->scale < 0 ? -be->scale : be->scale));
 
    if ((be->reference < 0) && (ival < (-be->reference)))
       {
       int32_t val = (int32_t)(ival + be->reference);
-      fval = (float)val / val_pow;
+      fval = (be->scale < 0) ? (float)val * val_pow : (float)val / val_pow;
       }
    else
       {
-      fval = (float)(ival + be->reference) / val_pow ;
+      fval = (be->scale < 0) ? (float)(ival + be->reference) * val_pow : (float)(ival + be->reference) / val_pow ;
       }
 
    return fval;
